@@ -376,6 +376,7 @@ type Terminal struct {
 	sigstop            bool
 	startChan          chan fitpad
 	killChan           chan bool
+	previewIndex       int32
 	previewMutex       sync.Mutex
 	previewCmd         *exec.Cmd
 	previewTempFiles   []string
@@ -4639,6 +4640,7 @@ func (t *Terminal) Loop() error {
 		if len(command) > 0 && t.canPreview() {
 			_, list := t.buildPlusList(command, false)
 			verifTrace("preview.enqueue", int(t.currentIndex()), 0, string(t.input))
+			t.previewIndex = t.currentIndex()
 			t.cancelPreview()
 			t.previewBox.Set(reqPreviewEnqueue, previewRequest{command, t.evaluateScrollOffset(), list, t.environForPreview(), string(t.input)})
 		}
@@ -4721,7 +4723,10 @@ func (t *Terminal) Loop() error {
 								info = true
 							}
 						}
-						if focusChanged || version != t.version {
+						// A preview requested by an action may be for a position that was
+						// never drawn; compare with what was actually requested last
+						stalePreview := t.previewIndex != currentIndex && len(t.previewOpts.command) > 0 && t.canPreview()
+						if focusChanged || version != t.version || stalePreview {
 							version = t.version
 							focusedIndex = currentIndex
 							refreshPreview(t.previewOpts.command)
@@ -5092,6 +5097,7 @@ func (t *Terminal) Loop() error {
 					if t.canPreview() {
 						valid, list := t.buildPlusList(t.previewOpts.command, false)
 						if valid {
+							t.previewIndex = t.currentIndex()
 							t.cancelPreview()
 							t.previewBox.Set(reqPreviewEnqueue,
 								previewRequest{t.previewOpts.command, t.evaluateScrollOffset(), list, t.environForPreview(), string(t.input)})
